@@ -127,6 +127,9 @@ def handle : List String → String
   | ["fstr", body] => match (unhex body).bind utf8Decode with
     | some cs => showRes "ok" (fstrCheck cs)
     | none => "bad-request"
+  | ["softkw", t] => match (unhex t).bind utf8Decode with
+    | some cs => if headIsKeyword (lineToks 0 cs) then "keyword" else "name"
+    | none => "bad-request"
   | _ => "bad-request"
 
 def main : IO Unit := protoLoop handle
